@@ -6,7 +6,7 @@ ID = "C17"
 ENGINE = "trainsim"
 LEVEL = "exploration"
 EXPECTED_S_PER_RUN = 6.0
-TIERS = {"quick": 200, "thorough": 5000}
+TIERS = {"quick": 200, "thorough": 2500}
 
 RULE = (
     "same program space as C16 (ODE, system of ODEs, stationary 2-D, space-time 2-D cartesian; schedules, sizes with time and "
